@@ -877,3 +877,743 @@ def gen_KineticsPy(repo):
         L.append("def pyRet%s : String := %s" % (fname, lean_str(_norm(lre, ret[-1]) if ret else "")))
     L.append("\nend Strengths.Gen")
     return "\n".join(L) + "\n"
+
+
+# =============================================================================================
+# C18 : the text pipeline of units.py (parse_units pre/post-processing, parse_unitvalue,
+#       Units.__str__, UnitValue.__str__, Units.__eq__)
+# =============================================================================================
+@group
+def gen_UnitsText(repo):
+    units = PySrc(repo, "src/strengths/units.py")
+
+    def norm(node):
+        return re.sub(r"\s+", "", units.seg(node))
+
+    # ------------------------------------------------------------------ parse_units
+    pu = units.func("parse_units")
+    top = [n for n in pu.body]
+    # order of the top-level preprocessing statements: replace chain, strip, empty test, whitespace guard
+    idx_strip = idx_empty = idx_guard = idx_loop = None
+    for i, n in enumerate(top):
+        if isinstance(n, ast.Assign) and norm(n) == "s=s.strip()":
+            idx_strip = i
+        if isinstance(n, ast.If) and norm(n.test) == 's==""' and any(isinstance(b, ast.Return) for b in n.body):
+            idx_empty = i
+        if isinstance(n, ast.If) and norm(n.test) == "any(c.isspace()forcins)" and any(isinstance(b, ast.Raise) for b in n.body):
+            idx_guard = i
+        if isinstance(n, ast.For) and norm(n.iter) == "s" and idx_loop is None:
+            idx_loop = i
+    if idx_strip is None or idx_empty is None or idx_loop is None:
+        raise AnchorLost("units.py:parse_units strip / empty test / character loop")
+    if not (idx_strip < idx_empty < idx_loop):
+        raise AnchorLost("units.py:parse_units order of strip, empty test, character loop")
+    guard = idx_guard is not None and idx_empty < idx_guard < idx_loop
+    if idx_guard is not None and not guard:
+        raise AnchorLost("units.py:parse_units whitespace guard position")
+    # replace chain must come before the strip
+    for i, n in enumerate(top):
+        if isinstance(n, ast.Assign) and isinstance(n.value, ast.Call) and isinstance(n.value.func, ast.Attribute) \
+                and n.value.func.attr == "replace" and i > idx_strip:
+            raise AnchorLost("units.py:parse_units replace after strip")
+    # first block
+    first_sep = None
+    for n in top:
+        if isinstance(n, ast.Assign) and norm(n.targets[0]) == "blocks" and isinstance(n.value, ast.List) \
+                and len(n.value.elts) == 1 and isinstance(n.value.elts[0], ast.List):
+            e = n.value.elts[0].elts
+            if len(e) == 3 and const_str(e[1]) == "" and const_str(e[2]) == "":
+                first_sep = const_str(e[0])
+    if first_sep is None or len(first_sep) != 1:
+        raise AnchorLost("units.py:parse_units initial block")
+    # second pass over the blocks: default exponent, reader, negation separator
+    dflt_exp = reader = neg_sep = None
+    for n in top:
+        if isinstance(n, ast.For) and norm(n.iter) == "blocks" and norm(n.target) == "b":
+            for st in n.body:
+                if isinstance(st, ast.If) and norm(st.test) == 'b[2]==""' and len(st.body) == 1 \
+                        and isinstance(st.body[0], ast.Assign) and norm(st.body[0].targets[0]) == "b[2]":
+                    dflt_exp = const_str(st.body[0].value)
+                if isinstance(st, ast.Assign) and norm(st.targets[0]) == "b[2]" and isinstance(st.value, ast.Call) \
+                        and isinstance(st.value.func, ast.Name) and norm(st.value.args[0]) == "b[2]" and len(st.value.args) == 1:
+                    reader = st.value.func.id
+                if isinstance(st, ast.If) and isinstance(st.test, ast.Compare) and norm(st.test.left) == "b[0]" \
+                        and isinstance(st.test.ops[0], ast.Eq) and len(st.body) == 1 and norm(st.body[0]) == "b[2]=-b[2]":
+                    neg_sep = const_str(st.test.comparators[0])
+            if reader is not None:
+                break
+    if dflt_exp is None or reader is None or neg_sep is None or len(neg_sep) != 1:
+        raise AnchorLost("units.py:parse_units exponent pass (default exponent / int() / '/' negation)")
+    # addunit: same-base consistency test
+    au = units.nested_func(pu, "addunit")
+    au_test = None
+    for n in au.body:
+        if isinstance(n, ast.If):
+            au_test = norm(n.test)
+            au_else_raises = any(isinstance(b, ast.Raise) for b in n.orelse)
+    if au_test is None:
+        raise AnchorLost("units.py:parse_units.addunit test")
+    # unknown unit: `if unittype == None: raise`
+    unk = False
+    for n in ast.walk(pu):
+        if isinstance(n, ast.If) and norm(n.test) == "unittype==None" and any(isinstance(b, ast.Raise) for b in n.body):
+            unk = True
+
+    # ------------------------------------------------------------------ parse_unitvalue
+    pv = units.func("parse_unitvalue")
+    strips = any(isinstance(n, ast.Assign) and norm(n) == "s=s.strip()" for n in pv.body)
+    splitter = None
+    for n in pv.body:
+        if isinstance(n, ast.Assign) and norm(n.targets[0]) == "tok":
+            splitter = norm(n.value)
+    if splitter is None:
+        raise AnchorLost("units.py:parse_unitvalue tok = s.split()")
+    value_reader = join = empty_value = empty_units = None
+    units_arg = None
+    for n in ast.walk(pv):
+        if isinstance(n, ast.Assign) and norm(n.targets[0]) == "value" and isinstance(n.value, ast.Call) \
+                and isinstance(n.value.func, ast.Name) and len(n.value.args) == 1:
+            value_reader = "%s(%s)" % (n.value.func.id, norm(n.value.args[0]))
+        if isinstance(n, ast.Assign) and norm(n.targets[0]) == "value" and isinstance(n.value, ast.Constant):
+            empty_value = const_number(units, n.value, {})
+        if isinstance(n, ast.Assign) and norm(n.targets[0]) == "us":
+            v = n.value
+            if isinstance(v, ast.Call) and isinstance(v.func, ast.Attribute) and v.func.attr == "join" \
+                    and len(v.args) == 1 and norm(v.args[0]) == "tok[1:]":
+                join = const_str(v.func.value)
+        if isinstance(n, ast.AugAssign) and norm(n.target) == "us" and isinstance(n.op, ast.Add) and norm(n.value) == "tok[i]" \
+                and join is None:
+            join = ""    # token concatenation loop (`us += tok[i]`)
+        if isinstance(n, ast.Assign) and norm(n.targets[0]) == "units" and isinstance(n.value, ast.Call) \
+                and norm(n.value.func) == "parse_units" and len(n.value.args) == 1:
+            a = n.value.args[0]
+            if isinstance(a, ast.Constant):
+                empty_units = const_str(a)
+            else:
+                units_arg = norm(a)
+    if value_reader is None or join is None or empty_value is None or empty_units is None or units_arg is None:
+        raise AnchorLost("units.py:parse_unitvalue value / join / empty case")
+
+    # ------------------------------------------------------------------ Units.__str__ / UnitValue.__str__ / Units.__eq__
+    us = units.func("__str__", "Units")
+    skip = bare = sep = None
+    keys = None
+    for n in ast.walk(us):
+        if isinstance(n, ast.For) and norm(n.iter) == "self.sys.keys()":
+            keys = "self.sys.keys()"
+        if isinstance(n, ast.If) and isinstance(n.test, ast.Compare) and norm(n.test.left) == "self.dim[k]" \
+                and isinstance(n.test.ops[0], ast.NotEq):
+            val = const_number(units, n.test.comparators[0], {})
+            inner = [b for b in n.body if isinstance(b, ast.If)]
+            if inner:
+                skip = val
+            else:
+                bare = val
+                if not (len(n.body) == 1 and norm(n.body[0]) == "s.append(self.sys[k]+str(self.dim[k]))"
+                        and len(n.orelse) == 1 and norm(n.orelse[0]) == "s.append(self.sys[k])"):
+                    raise AnchorLost("units.py:Units.__str__ append statements")
+        if isinstance(n, ast.AugAssign) and norm(n.target) == "out" and isinstance(n.value, ast.Constant):
+            sep = const_str(n.value)
+    if skip is None or bare is None or sep is None or keys is None:
+        raise AnchorLost("units.py:Units.__str__ structure")
+    kf = units.func("keys", "_UnitsComponentDict")
+    key_list = None
+    for n in ast.walk(kf):
+        if isinstance(n, ast.Return):
+            key_list = str_list(n.value)
+    if key_list is None:
+        raise AnchorLost("units.py:_UnitsComponentDict.keys")
+    vs = units.func("__str__", "UnitValue")
+    vsep = None
+    for n in ast.walk(vs):
+        if isinstance(n, ast.Return):
+            m = re.fullmatch(r'str\(self\.value\)\+("[^"]*")\+self\.units\.__str__\(\)', norm(n.value))
+            if m:
+                vsep = ast.literal_eval(m.group(1))
+            # note: a blank inside the literal survives `norm` only if quoted text is kept; re-read from the AST
+            if isinstance(n.value, ast.BinOp) and isinstance(n.value.left, ast.BinOp) \
+                    and isinstance(n.value.left.right, ast.Constant) and isinstance(n.value.left.right.value, str) \
+                    and norm(n.value.left.left) == "str(self.value)" and norm(n.value.right) == "self.units.__str__()":
+                vsep = n.value.left.right.value
+    if vsep is None:
+        raise AnchorLost("units.py:UnitValue.__str__ return")
+    ue = units.func("__eq__", "Units")
+    eq_keys, eq_tests = None, []
+    for n in ast.walk(ue):
+        if isinstance(n, ast.For) and isinstance(n.iter, (ast.List, ast.Tuple)):
+            eq_keys = str_list(n.iter)
+            for st in n.body:
+                if isinstance(st, ast.If) and len(st.body) == 1 and norm(st.body[0]) == "returnFalse":
+                    eq_tests.append(norm(st.test))
+    if eq_keys is None or not eq_tests:
+        raise AnchorLost("units.py:Units.__eq__ loop")
+
+    L = []
+    L.append("namespace Strengths.Gen\n")
+    L.append("/-- `parse_units`: the replace chain, then `s = s.strip()`, then `if s == \"\": return` default units,")
+    L.append("then (when present) `if any(c.isspace() for c in s): raise`, then the character loop -/")
+    L.append("def puRejectsInnerBlank : Bool := %s" % ("true" if guard else "false"))
+    L.append("def puFirstBlockSep : Char := '%s'" % first_sep)
+    L.append("/-- exponent pass: `if b[2] == \"\": b[2] = <default>`, `b[2] = <reader>(b[2])`, `if b[0] == <sep>: b[2] = -b[2]` -/")
+    L.append("def puDefaultExp : String := %s" % lean_str(dflt_exp))
+    L.append("def puExpReader : String := %s" % lean_str(reader))
+    L.append("def puNegSep : Char := '%s'" % neg_sep)
+    L.append("/-- `addunit`: accept test, and whether the else branch raises -/")
+    L.append("def puAddUnitTest : String := %s" % lean_str(au_test))
+    L.append("def puAddUnitElseRaises : Bool := %s" % ("true" if au_else_raises else "false"))
+    L.append("def puUnknownUnitRaises : Bool := %s\n" % ("true" if unk else "false"))
+    L.append("/-- `parse_unitvalue` -/")
+    L.append("def uvStrips : Bool := %s" % ("true" if strips else "false"))
+    L.append("def uvSplitter : String := %s" % lean_str(splitter))
+    L.append("def uvValueReader : String := %s" % lean_str(value_reader))
+    L.append("def uvUnitTokJoin : String := %s" % lean_str(join))
+    L.append("def uvUnitsArg : String := %s" % lean_str(units_arg))
+    L.append("def uvEmptyValue : Rat := %s" % lean_rat(empty_value))
+    L.append("def uvEmptyUnits : String := %s\n" % lean_str(empty_units))
+    L.append("/-- `Units.__str__`: skip exponent, bare-symbol exponent, separator, key order -/")
+    L.append("def strSkipExp : Int := %d" % int(skip))
+    L.append("def strBareExp : Int := %d" % int(bare))
+    L.append("def strSep : String := %s" % lean_str(sep))
+    L.append("def strKeys : List String := %s" % lean_list([lean_str(k) for k in key_list]))
+    L.append("/-- `UnitValue.__str__` = str(value) + <sep> + str(units) -/")
+    L.append("def uvStrSep : String := %s\n" % lean_str(vsep))
+    L.append("/-- `Units.__eq__`: keys of the loop and the tests that return False -/")
+    L.append("def unitsEqKeys : List String := %s" % lean_list([lean_str(k) for k in eq_keys]))
+    L.append("def unitsEqTests : List String := %s" % lean_list([lean_str(k) for k in eq_tests]))
+    L.append("\nend Strengths.Gen")
+    return "\n".join(L) + "\n"
+
+
+# =============================================================================================
+# UnitsOps : operator wiring of UnitValue / UnitArray (C05) — normalised source text, no evaluation
+# =============================================================================================
+@group
+def gen_UnitsOps(repo):
+    units = PySrc(repo, "src/strengths/units.py")
+
+    def norm(node):
+        txt = re.sub(r"\s+", "", units.seg(node))
+        return re.sub(r"\"[^\"]*\"|'[^']*'", '""', txt)
+
+    def stmt(s):
+        if isinstance(s, ast.Expr) and isinstance(s.value, ast.Constant) and isinstance(s.value.value, str):
+            return None   # docstring
+        if isinstance(s, ast.Return):
+            return "return " + (norm(s.value) if s.value is not None else "")
+        if isinstance(s, ast.Raise):
+            e = s.exc
+            name = e.func.id if isinstance(e, ast.Call) and isinstance(e.func, ast.Name) else (e.id if isinstance(e, ast.Name) else None)
+            if name is None:
+                raise AnchorLost("units.py: raise of an unexpected form: " + units.seg(s)[:60])
+            return "raise " + name
+        if isinstance(s, ast.If):
+            out = "if " + norm(s.test) + ":{" + body(s.body) + "}"
+            if s.orelse:
+                out += "else:{" + body(s.orelse) + "}"
+            return out
+        if isinstance(s, (ast.Assign, ast.AugAssign)):
+            return norm(s)
+        if isinstance(s, ast.For):
+            return "for " + norm(s.target) + " in " + norm(s.iter) + ":{" + body(s.body) + "}"
+        raise AnchorLost("units.py: statement outside the normalised subset: " + units.seg(s)[:60])
+
+    def body(stmts):
+        return ";".join(x for x in (stmt(s) for s in stmts) if x is not None)
+
+    def branches(fn):
+        """the top-level if/elif/else chain of a method: [(test, body)]; other statements: ("", stmt)"""
+        out = []
+        for s in fn.body:
+            if isinstance(s, ast.If):
+                node = s
+                while True:
+                    out.append((norm(node.test), body(node.body)))
+                    if len(node.orelse) == 1 and isinstance(node.orelse[0], ast.If):
+                        node = node.orelse[0]
+                    else:
+                        if node.orelse:
+                            out.append(("else", body(node.orelse)))
+                        break
+            else:
+                t = stmt(s)
+                if t is not None:
+                    out.append(("", t))
+        if not out:
+            raise AnchorLost("units.py:%s has no statements" % fn.name)
+        return out
+
+    def table(name, rows):
+        return "def %s : List (String × String) := %s" % (
+            name, lean_list(["(%s, %s)" % (lean_str(a), lean_str(b)) for a, b in rows]))
+
+    L = ["namespace Strengths.Gen\n"]
+    dunders = ["__add__", "__radd__", "__sub__", "__rsub__", "__mul__", "__rmul__", "__truediv__", "__rtruediv__",
+               "__mod__", "__rmod__", "__neg__", "__abs__", "invert"]
+    for cls, pre in (("UnitValue", "uval"), ("UnitArray", "uarr")):
+        rows = []
+        for m in dunders:
+            fn = units.func(m, cls=cls)
+            b = branches(fn)
+            if len(b) != 1 or b[0][0] != "" or not b[0][1].startswith("return "):
+                raise AnchorLost("units.py:%s.%s is not a single return" % (cls, m))
+            rows.append((m, b[0][1][len("return "):]))
+        L.append("/-- `%s`: the return expression of every operator method (whitespace removed) -/" % cls)
+        L.append(table(pre + "Wiring", rows))
+        for m in ("_sum", "_product", "_modulo", "_rmodulo"):
+            L.append("/-- `%s.%s`: (test, normalised body) per branch -/" % (cls, m))
+            L.append(table(pre + m, branches(units.func(m, cls=cls))))
+        for m in ("__pow__", "__rpow__"):
+            L.append(table(pre + m.strip("_").capitalize(), branches(units.func(m, cls=cls))))
+        # comparison methods the class defines (Python derives `!=` from `__eq__` only when `__ne__` is absent)
+        cdef = None
+        for n in units.tree.body:
+            if isinstance(n, ast.ClassDef) and n.name == cls:
+                cdef = n
+        names = [f.name for f in cdef.body if isinstance(f, ast.FunctionDef)
+                 and f.name in ("__eq__", "__ne__", "__neq__", "__gt__", "__ge__", "__lt__", "__le__")]
+        L.append("def %sCmpMethods : List String := %s" % (pre, lean_list([lean_str(x) for x in names])))
+        L.append("")
+    for m in ("__eq__", "__gt__", "__ge__", "__lt__", "__le__"):
+        L.append("/-- `UnitValue.%s` -/" % m)
+        L.append(table("uvalCmp_" + m.strip("_"), branches(units.func(m, cls="UnitValue"))))
+    L.append("")
+    for m in ("invert", "multiply", "raiseto"):
+        L.append("/-- `Units.%s` -/" % m)
+        L.append(table("units_" + m, branches(units.func(m, cls="Units"))))
+    for m in ("_neg", "_inv"):
+        L.append("/-- module function `%s` -/" % m)
+        L.append(table("fn" + m, branches(units.func(m))))
+    L.append("\nend Strengths.Gen")
+    return "\n".join(L) + "\n"
+
+
+# =============================================================================================
+# Geometry on the Python side (C15): are_neighbors, get_neighbors, the neighbour enumeration of
+# kinetics._compute_dspeciesdt_grid, coarsegrain.grid_to_graph, RDGraphSpace.get_edge/get_cell_index
+# =============================================================================================
+class _ExprTrMin(ExprTr):
+    """ExprTr + two-argument `min(a, b)`"""
+
+    def tr(self, n):
+        k = self.key(n)
+        if k in self.names:
+            return self.names[k]
+        if isinstance(n, ast.Call) and isinstance(n.func, ast.Name) and n.func.id == "min" and len(n.args) == 2 and not n.keywords:
+            return "(min %s %s)" % (self.tr(n.args[0]), self.tr(n.args[1]))
+        return ExprTr.tr(self, n)
+
+
+def _norm(src, node):
+    return re.sub(r"\s+", "", src.seg(node))
+
+
+def _triple(src, node, names, what):
+    if not isinstance(node, (ast.Tuple, ast.List)) or len(node.elts) != 3:
+        raise AnchorLost(what + ": coordinate triple")
+    return "(%s, %s, %s)" % tuple(_ExprTrMin(src, names).tr(e) for e in node.elts)
+
+
+def _single_call_arg(node, attr):
+    """node is `<something>.<attr>(ARG)`: return ARG"""
+    if isinstance(node, ast.Call) and isinstance(node.func, ast.Attribute) and node.func.attr == attr and len(node.args) == 1 \
+            and not node.keywords:
+        return node.args[0]
+    return None
+
+
+@group
+def gen_GeomPy(repo):
+    grid = PySrc(repo, "src/strengths/rdgridspace.py")
+    L = ["namespace Strengths.Gen\n"]
+    AX = "xyz"
+    SZ = {"x": "self.w", "y": "self.h", "z": "self.d"}
+
+    # ---------------------------------------------------------------- RDGridSpace.are_neighbors
+    an = grid.func("are_neighbors", "RDGridSpace")
+    guards = 0
+    for st in an.body:
+        if isinstance(st, ast.If) and re.fullmatch(r"notself\.is_within_bounds\(position[12]\)", _norm(grid, st.test)) \
+                and any(isinstance(b, ast.Raise) for b in st.body):
+            guards += 1
+    coord_src = {}
+    for st in an.body:
+        if isinstance(st, ast.Assign) and len(st.targets) == 1 and isinstance(st.targets[0], ast.Name) \
+                and st.targets[0].id in ("coord1", "coord2"):
+            coord_src[st.targets[0].id] = _norm(grid, st.value)
+    for k in (1, 2):
+        if coord_src.get("coord%d" % k) != "self.get_cell_coordinates(self.get_cell_index(position%d))" % k:
+            raise AnchorLost("rdgridspace.py:are_neighbors coord%d assignment" % k)
+    dist, wrap = {}, {}
+    for st in an.body:
+        if isinstance(st, ast.Assign) and len(st.targets) == 1 and isinstance(st.targets[0], ast.Name) \
+                and st.targets[0].id in ("dx", "dy", "dz"):
+            a = AX.index(st.targets[0].id[1])
+            dist[a] = _ExprTrMin(grid, {"coord1[%d]" % a: "p", "coord2[%d]" % a: "q"}).tr(st.value)
+        if isinstance(st, ast.If):
+            m = re.fullmatch(r'self\._boundary_conditions\["([xyz])"\]=="periodical"', _norm(grid, st.test))
+            if m:
+                ax = m.group(1)
+                if len(st.body) != 1 or st.orelse or not isinstance(st.body[0], ast.Assign) \
+                        or _norm(grid, st.body[0].targets[0]) != "d" + ax:
+                    raise AnchorLost("rdgridspace.py:are_neighbors periodic branch of axis " + ax)
+                wrap[AX.index(ax)] = _ExprTrMin(grid, {"d" + ax: "dd", SZ[ax]: "n"}).tr(st.body[0].value)
+    if sorted(dist) != [0, 1, 2] or sorted(wrap) != [0, 1, 2]:
+        raise AnchorLost("rdgridspace.py:are_neighbors distance / periodic lines")
+    ret = None
+    for st in an.body:
+        if isinstance(st, ast.Return):
+            ret = _ExprTrMin(grid, {"dx": "dx", "dy": "dy", "dz": "dz"}).tr(st.value)
+    if ret is None:
+        raise AnchorLost("rdgridspace.py:are_neighbors return")
+    L.append("/-- `RDGridSpace.are_neighbors`: number of leading `if not self.is_within_bounds(positionK) : raise` guards -/")
+    L.append("def areNbrGuards : Nat := %d" % guards)
+    for a in range(3):
+        L.append("/-- axis %d: `d = abs(coord1[%d] - coord2[%d])` -/" % (a, a, a))
+        L.append("def areNbrDist%d (p q : Int) : Int := %s" % (a, dist[a]))
+        L.append("/-- axis %d, periodic: new distance from axis size `n` and distance `dd` -/" % a)
+        L.append("def areNbrWrap%d (n dd : Int) : Int := %s" % (a, wrap[a]))
+    L.append("def areNbrTest (dx dy dz : Int) : Bool := %s\n" % ret)
+
+    # ---------------------------------------------------------------- RDGridSpace.get_neighbors
+    gn = grid.func("get_neighbors", "RDGridSpace")
+    names = {"x": "x", "y": "y", "z": "z", "self.w": "w", "self.h": "h", "self.d": "d",
+             'self._boundary_conditions["x"]=="periodical"': "px",
+             'self._boundary_conditions["y"]=="periodical"': "py",
+             'self._boundary_conditions["z"]=="periodical"': "pz"}
+    pro = [_norm(grid, st) for st in gn.body if isinstance(st, ast.Assign)]
+    if pro[:2] != ["i=self.get_cell_index(position)", "x,y,z=self.get_cell_coordinates(i)"]:
+        raise AnchorLost("rdgridspace.py:get_neighbors prologue")
+    rules = []
+    for st in gn.body:
+        if isinstance(st, ast.If):
+            if st.orelse or len(st.body) != 1 or not isinstance(st.body[0], ast.Expr):
+                raise AnchorLost("rdgridspace.py:get_neighbors rule shape")
+            arg = _single_call_arg(st.body[0].value, "append")
+            inner = _single_call_arg(arg, "get_cell_index") if arg is not None else None
+            if inner is None or _norm(grid, st.body[0].value.func) != "neighbors.append":
+                raise AnchorLost("rdgridspace.py:get_neighbors rule body")
+            rules.append("(%s, %s)" % (_ExprTrMin(grid, names).tr(st.test), _triple(grid, inner, names, "get_neighbors")))
+    if not rules:
+        raise AnchorLost("rdgridspace.py:get_neighbors rules")
+    L.append("/-- `RDGridSpace.get_neighbors`: the `if COND : neighbors.append(self.get_cell_index((a, b, c)))` lines, in order -/")
+    L.append("def getNbrRules (w h d : Int) (px py pz : Bool) (x y z : Int) : List (Bool × Int × Int × Int) := [\n  %s]\n"
+             % ",\n  ".join(rules))
+
+    # ---------------------------------------------------------------- kinetics._compute_dspeciesdt_grid
+    kin = PySrc(repo, "src/strengths/kinetics.py")
+    fn = kin.func("_compute_dspeciesdt_grid")
+    loop = None
+    for st in fn.body:
+        if isinstance(st, ast.For) and isinstance(st.target, ast.Name) and st.target.id == "c" and isinstance(st.iter, ast.List):
+            loop = st
+    if loop is None:
+        raise AnchorLost("kinetics.py:_compute_dspeciesdt_grid neighbour loop")
+    p_src = None
+    for st in fn.body:
+        if isinstance(st, ast.Assign) and _norm(kin, st.targets[0]) == "p":
+            p_src = _norm(kin, st.value)
+    if p_src != "system.space.get_cell_coordinates(system.space.get_cell_index(position))":
+        raise AnchorLost("kinetics.py:_compute_dspeciesdt_grid p assignment")
+    pn = {"p[0]": "x", "p[1]": "y", "p[2]": "z"}
+    deltas = [_triple(kin, e, pn, "kinetics neighbour list") for e in loop.iter.elts]
+    ksz = {"x": "system.space.w", "y": "system.space.h", "z": "system.space.d"}
+    kcond, kwrap, kguard, kcall = {}, {}, False, None
+    for st in loop.body:
+        if not isinstance(st, ast.If):
+            raise AnchorLost("kinetics.py:_compute_dspeciesdt_grid loop body statement")
+        t = _norm(kin, st.test)
+        if t == "system.space.is_within_bounds(c)":
+            kguard = True
+            for b in st.body:
+                if isinstance(b, ast.Assign) and isinstance(b.value, ast.Call) and _norm(kin, b.value.func) == "compute_diffusion_rates":
+                    kcall = [_norm(kin, a) for a in b.value.args]
+            continue
+        m = re.search(r'system\.space\._boundary_conditions\["([xyz])"\]', t)
+        if not m:
+            raise AnchorLost("kinetics.py:_compute_dspeciesdt_grid unexpected condition " + t[:60])
+        ax = m.group(1)
+        a = AX.index(ax)
+        if st.orelse or len(st.body) != 1 or not isinstance(st.body[0], ast.Assign) or _norm(kin, st.body[0].targets[0]) != "c[%d]" % a:
+            raise AnchorLost("kinetics.py:_compute_dspeciesdt_grid wrap line of axis " + ax)
+        kcond[a] = _ExprTrMin(kin, {'system.space._boundary_conditions["%s"]=="periodical"' % ax: "p", ksz[ax]: "n"}).tr(st.test)
+        kwrap[a] = _ExprTrMin(kin, {ksz[ax]: "n", "c[%d]" % a: "c"}).tr(st.body[0].value)
+    if sorted(kcond) != [0, 1, 2] or not kguard or kcall is None:
+        raise AnchorLost("kinetics.py:_compute_dspeciesdt_grid wrap lines / bounds guard")
+    if kcall[:4] != ["system", "species", "p", "c"]:
+        raise AnchorLost("kinetics.py:_compute_dspeciesdt_grid compute_diffusion_rates arguments")
+    L.append("/-- `_compute_dspeciesdt_grid`: the candidate list `for c in [[p[0]+1, p[1], p[2]], …]` -/")
+    L.append("def kinDeltas (x y z : Int) : List (Int × Int × Int) := %s" % lean_list(deltas))
+    for a in range(3):
+        L.append("/-- axis %d: condition of the wrap line (`p` = axis is periodical, `n` = axis size) and the wrapped coordinate -/" % a)
+        L.append("def kinWrapCond%d (p : Bool) (n : Int) : Bool := %s" % (a, kcond[a]))
+        L.append("def kinWrap%d (n c : Int) : Int := %s" % (a, kwrap[a]))
+    L.append("/-- the candidate is used only `if system.space.is_within_bounds(c)` -/")
+    L.append("def kinBoundsGuard : Bool := true\n")
+    # compute_diffusion_rates: the neighbour tests
+    cdr = kin.func("compute_diffusion_rates")
+    tests = []
+    for st in cdr.body:
+        if isinstance(st, ast.If) and any(isinstance(b, ast.Raise) for b in st.body):
+            tests.append(_norm(kin, st.test))
+    want = ["type(system.space)==RDGridSpaceandnotsystem.space.are_neighbors(src_position_index,dst_position_index)",
+            "type(system.space)==RDGraphSpaceandsystem.space.get_edge(src_position_index,dst_position_index)isNone"]
+    L.append("/-- `compute_diffusion_rates`: the two raising neighbour tests (normalised text) -/")
+    L.append("def diffRateNbrTests : List String := %s\n" % lean_list([lean_str(t) for t in tests]))
+
+    # ---------------------------------------------------------------- coarsegrain.grid_to_graph
+    cg = PySrc(repo, "src/strengths/coarsegrain.py")
+    g2g = cg.func("grid_to_graph")
+    gnm = {"x": "x", "y": "y", "z": "z", "grid.w": "w", "grid.h": "h", "grid.d": "d"}
+    assigns = {}
+    for st in g2g.body:
+        if isinstance(st, ast.Assign) and isinstance(st.targets[0], ast.Name):
+            assigns[st.targets[0].id] = _norm(cg, st.value)
+    for k in ("edge_dst", "edge_sfc", "graph"):
+        if k not in assigns:
+            raise AnchorLost("coarsegrain.py:grid_to_graph assignment to " + k)
+
+    def kwargs(call):
+        return [(kw.arg, _norm(cg, kw.value)) for kw in call.keywords]
+
+    def edge_call(stmt, what):
+        """stmt: `edges.append(RDGraphSpaceEdge(i=grid.get_cell_index(T1), j=grid.get_cell_index(T2), surface=…, …))`"""
+        if not isinstance(stmt, ast.Expr):
+            raise AnchorLost(what + ": statement")
+        arg = _single_call_arg(stmt.value, "append")
+        if arg is None or _norm(cg, stmt.value.func) != "edges.append" or not isinstance(arg, ast.Call) \
+                or _norm(cg, arg.func) != "RDGraphSpaceEdge" or arg.args:
+            raise AnchorLost(what + ": edges.append(RDGraphSpaceEdge(...))")
+        kw = {k.arg: k.value for k in arg.keywords}
+        ends = []
+        for nm in ("i", "j"):
+            t = _single_call_arg(kw.get(nm), "get_cell_index") if nm in kw else None
+            if t is None or _norm(cg, kw[nm].func) != "grid.get_cell_index":
+                raise AnchorLost(what + ": end " + nm)
+            ends.append(_triple(cg, t, gnm, what))
+        rest = sorted((k, _norm(cg, v)) for k, v in kw.items() if k not in ("i", "j"))
+        return ends, rest
+
+    def loops(st, what):
+        """nest of `for v in range(grid.X)`; returns ([(v, bound)], innermost body)"""
+        order = []
+        while True:
+            if not (isinstance(st, ast.For) and isinstance(st.target, ast.Name) and not st.orelse):
+                raise AnchorLost(what + ": loop nest")
+            b = _single_call_arg(st.iter, "range") if isinstance(st.iter, ast.Call) and isinstance(st.iter.func, ast.Attribute) else None
+            if not (isinstance(st.iter, ast.Call) and isinstance(st.iter.func, ast.Name) and st.iter.func.id == "range" and len(st.iter.args) == 1):
+                raise AnchorLost(what + ": range loop")
+            order.append((st.target.id, _norm(cg, st.iter.args[0])))
+            if len(st.body) == 1 and isinstance(st.body[0], ast.For):
+                st = st.body[0]
+            else:
+                return order, st.body
+
+    node_kw, inner_order, inner_rules, edge_rest = None, None, [], set()
+    per = {}
+    per_order = []
+    for st in g2g.body:
+        if isinstance(st, ast.For):
+            order, body = loops(st, "grid_to_graph")
+            if len(order) == 1:   # node loop
+                if order != [("i", "grid.size()")] or len(body) != 1:
+                    raise AnchorLost("coarsegrain.py:grid_to_graph node loop")
+                arg = _single_call_arg(body[0].value, "append") if isinstance(body[0], ast.Expr) else None
+                if arg is None or _norm(cg, body[0].value.func) != "nodes.append" or _norm(cg, arg.func) != "RDGraphSpaceNode" or arg.args:
+                    raise AnchorLost("coarsegrain.py:grid_to_graph node construction")
+                node_kw = kwargs(arg)
+            else:
+                inner_order = order
+                for b in body:
+                    if not isinstance(b, ast.If) or b.orelse or len(b.body) != 1:
+                        raise AnchorLost("coarsegrain.py:grid_to_graph inner rule shape")
+                    ends, rest = edge_call(b.body[0], "grid_to_graph inner edge")
+                    edge_rest.add(tuple(rest))
+                    inner_rules.append("(%s, %s, %s)" % (_ExprTrMin(cg, gnm).tr(b.test), ends[0], ends[1]))
+        elif isinstance(st, ast.If):
+            m = re.fullmatch(r'grid\.get_boundary_conditions\(\)\["([xyz])"\]=="periodical"', _norm(cg, st.test))
+            if not m or st.orelse or len(st.body) != 1:
+                raise AnchorLost("coarsegrain.py:grid_to_graph periodic block")
+            order, body = loops(st.body[0], "grid_to_graph periodic block")
+            if len(body) != 1:
+                raise AnchorLost("coarsegrain.py:grid_to_graph periodic block body")
+            ends, rest = edge_call(body[0], "grid_to_graph periodic edge")
+            edge_rest.add(tuple(rest))
+            per[m.group(1)] = (order, ends)
+            per_order.append(m.group(1))
+    if node_kw is None or inner_order is None or not inner_rules or sorted(per) != ["x", "y", "z"]:
+        raise AnchorLost("coarsegrain.py:grid_to_graph structure")
+    if len(edge_rest) != 1:
+        raise AnchorLost("coarsegrain.py:grid_to_graph edges do not all use the same surface/distance/units arguments")
+
+    def pairs(l):
+        return lean_list(["(%s, %s)" % (lean_str(a), lean_str(b)) for a, b in l])
+    L.append("/-- `grid_to_graph`: edge length and face area expressions, node and edge constructor arguments -/")
+    L.append("def g2gEdgeDst : String := %s" % lean_str(assigns["edge_dst"]))
+    L.append("def g2gEdgeSfc : String := %s" % lean_str(assigns["edge_sfc"]))
+    L.append("def g2gNodeArgs : List (String × String) := %s" % pairs(node_kw))
+    L.append("def g2gEdgeArgs : List (String × String) := %s" % pairs(list(edge_rest)[0]))
+    L.append("def g2gGraphCtor : String := %s" % lean_str(assigns["graph"]))
+    L.append("/-- loop nest of the interior edges (outermost first) and its `if COND : edge(i-coords, j-coords)` lines -/")
+    L.append("def g2gInnerLoops : List (String × String) := %s" % pairs(inner_order))
+    L.append("def g2gInnerRules (w h d x y z : Int) : List (Bool × (Int × Int × Int) × (Int × Int × Int)) := [\n  %s]"
+             % ",\n  ".join(inner_rules))
+    L.append("/-- the periodic blocks, in source order; per axis: loop nest, i-coords, j-coords -/")
+    L.append("def g2gPerOrder : List String := %s" % lean_list([lean_str(a) for a in per_order]))
+    for a, ax in enumerate(AX):
+        order, ends = per[ax]
+        L.append("def g2gPerLoops%d : List (String × String) := %s" % (a, pairs(order)))
+        L.append("def g2gPerI%d (w h d x y z : Int) : Int × Int × Int := %s" % (a, ends[0]))
+        L.append("def g2gPerJ%d (w h d x y z : Int) : Int × Int × Int := %s" % (a, ends[1]))
+    L.append("")
+
+    # ---------------------------------------------------------------- RDGraphSpace.get_edge / get_cell_index
+    graph = PySrc(repo, "src/strengths/rdgraphspace.py")
+    ge = graph.func("get_edge", "RDGraphSpace")
+    em = None
+    for st in ge.body:
+        if isinstance(st, ast.For) and _norm(graph, st.iter) == "self.edges" and _norm(graph, st.target) == "edge":
+            for b in st.body:
+                if isinstance(b, ast.If) and any(isinstance(r, ast.Return) and _norm(graph, r.value) == "edge" for r in b.body):
+                    em = _ExprTrMin(graph, {"edge.i": "ei", "edge.j": "ej", "i": "i", "j": "j"}).tr(b.test)
+    last = ge.body[-1]
+    if em is None or not (isinstance(last, ast.Return) and _norm(graph, last.value) == "None"):
+        raise AnchorLost("rdgraphspace.py:get_edge loop / final return None")
+    L.append("/-- `RDGraphSpace.get_edge`: the first edge satisfying this test is returned, `None` when there is none -/")
+    L.append("def edgeMatches (ei ej i j : Int) : Bool := %s" % em)
+    gci = graph.func("get_cell_index", "RDGraphSpace")
+    bad = None
+    for st in gci.body:
+        if isinstance(st, ast.If) and any(isinstance(b, ast.Raise) for b in st.body):
+            bad = _ExprTrMin(graph, {"cell_index": "p", "self.size()": "size"}).tr(st.test)
+    if bad is None:
+        raise AnchorLost("rdgraphspace.py:get_cell_index range test")
+    L.append("/-- `RDGraphSpace.get_cell_index`: raises when this holds -/")
+    L.append("def graphIndexBad (size p : Int) : Bool := %s" % bad)
+    L.append("\nend Strengths.Gen")
+    return "\n".join(L) + "\n"
+
+
+# =============================================================================================
+# RDSystem defaults and accessors (C13): which units system the default state is expressed in, the fallback chain of
+# get_value_in_env, the default density / chemostat values, the wrapping of raw numbers in set_state
+# =============================================================================================
+@group
+def gen_SystemPy(repo):
+    rds = PySrc(repo, "src/strengths/rdsystem.py")
+    vp = PySrc(repo, "src/strengths/value_processing.py")
+    L = ["namespace Strengths.Gen\n"]
+
+    # ---- get_value_in_env: dict -> [environment, "default"] -> default ; else the value itself
+    gv = vp.func("get_value_in_env")
+    top = gv.body[-1] if isinstance(gv.body[-1], ast.If) else None
+    if top is None or _norm(vp, top.test) != "isdict(value)" or len(top.orelse) != 1 or _norm(vp, top.orelse[0]) != "returnvalue":
+        raise AnchorLost("value_processing.py:get_value_in_env outer shape")
+    chain = []
+    node = top.body[0] if len(top.body) == 1 else None
+    while isinstance(node, ast.If):
+        m = re.fullmatch(r"(.+)inlist\(value\)", _norm(vp, node.test))
+        if not m or len(node.body) != 1 or _norm(vp, node.body[0]) != "returnvalue[%s]" % m.group(1):
+            raise AnchorLost("value_processing.py:get_value_in_env lookup chain")
+        chain.append(m.group(1))
+        if len(node.orelse) == 1 and isinstance(node.orelse[0], ast.If):
+            node = node.orelse[0]
+        else:
+            if len(node.orelse) != 1 or _norm(vp, node.orelse[0]) != "returndefault":
+                raise AnchorLost("value_processing.py:get_value_in_env final default")
+            node = None
+    if not chain or chain[0] != "environment":
+        raise AnchorLost("value_processing.py:get_value_in_env first lookup")
+    fall = []
+    for c in chain[1:]:
+        if not (c.startswith('"') and c.endswith('"')):
+            raise AnchorLost("value_processing.py:get_value_in_env fallback key " + c)
+        fall.append(c[1:-1])
+    L.append("/-- `get_value_in_env`: keys tried after the environment label itself, in order; then the `default` argument -/")
+    L.append("def envFallbackKeys : List String := %s\n" % lean_list([lean_str(c) for c in fall]))
+
+    # ---- generate_species_state
+    gss = rds.func("generate_species_state")
+    call_ = None
+    formula = None
+    for n in ast.walk(gss):
+        if isinstance(n, ast.Call) and _norm(rds, n.func) == "valproc.get_value_in_env":
+            call_ = {k.arg: k.value for k in n.keywords}
+        if isinstance(n, ast.Assign) and _norm(rds, n.targets[0]) == "state[i]":
+            formula = _norm(rds, n.value)
+    if call_ is None or sorted(call_) != ["default", "environment", "value"]:
+        raise AnchorLost("rdsystem.py:generate_species_state get_value_in_env call")
+    if _norm(rds, call_["value"]) != "species.density" or _norm(rds, call_["environment"]) != "network.environments[cell_env[i]]":
+        raise AnchorLost("rdsystem.py:generate_species_state value / environment arguments")
+    dflt = call_["default"]
+    if not (isinstance(dflt, ast.Call) and _norm(rds, dflt.func) == "UnitValue" and len(dflt.args) == 2):
+        raise AnchorLost("rdsystem.py:generate_species_state default density")
+    dval = const_number(rds, dflt.args[0], {})
+    dunit = const_str(dflt.args[1])
+    ret = _norm(rds, gss.body[-1].value) if isinstance(gss.body[-1], ast.Return) else None
+    if formula is None or ret is None:
+        raise AnchorLost("rdsystem.py:generate_species_state entry formula / return")
+    L.append("/-- `generate_species_state`: default density, entry formula, returned array (normalised source text) -/")
+    L.append("def defaultDensityValue : Rat := %s" % lean_rat(dval))
+    L.append("def defaultDensityUnit : String := %s" % lean_str(dunit))
+    L.append("def speciesStateEntry : String := %s" % lean_str(formula))
+    L.append("def speciesStateReturn : String := %s\n" % lean_str(ret))
+
+    # ---- generate_species_chemostats
+    gsc = rds.func("generate_species_chemostats")
+    call_, entry = None, None
+    for n in ast.walk(gsc):
+        if isinstance(n, ast.Call) and _norm(rds, n.func) == "valproc.get_value_in_env":
+            call_ = {k.arg: k.value for k in n.keywords}
+        if isinstance(n, ast.Assign) and _norm(rds, n.targets[0]) == "chstt[i]":
+            entry = _norm(rds, n.value)
+    if call_ is None or _norm(rds, call_.get("value")) != "species.chstt" \
+            or _norm(rds, call_.get("environment")) != "network.environments[cell_env[i]]" or entry is None:
+        raise AnchorLost("rdsystem.py:generate_species_chemostats")
+    L.append("/-- `generate_species_chemostats`: default flag and entry conversion -/")
+    L.append("def defaultChemostatValue : Int := (%d : Int)" % int(const_number(rds, call_["default"], {})))
+    L.append("def speciesChemEntry : String := %s\n" % lean_str(entry))
+
+    # ---- generate_system_state / chemostats: per species, default branch, concatenation order
+    def concat_of(fn, what):
+        loop = None
+        for st in fn.body:
+            if isinstance(st, ast.For) and _norm(rds, st.iter) == "network.species":
+                loop = st
+        if loop is None or len(loop.body) != 1 or not isinstance(loop.body[0], ast.If):
+            raise AnchorLost("rdsystem.py:%s species loop" % what)
+        return [_norm(rds, s) for s in loop.body[0].orelse]
+    L.append("/-- `generate_system_state` / `generate_system_chemostats`: the default branch of the per-species loop -/")
+    L.append("def systemStateDefaultBranch : List String := %s" % lean_list([lean_str(x) for x in concat_of(rds.func("generate_system_state"), "generate_system_state")]))
+    L.append("def systemChemDefaultBranch : List String := %s\n" % lean_list([lean_str(x) for x in concat_of(rds.func("generate_system_chemostats"), "generate_system_chemostats")]))
+
+    # ---- RDSystem.set_default_state / set_default_chemostats / set_state / set_chemostat / getters
+    def body_text(name):
+        fn = rds.func(name, "RDSystem")
+        return [_norm(rds, s) for s in fn.body if not (isinstance(s, ast.Expr) and isinstance(s.value, ast.Constant))]
+    sds = body_text("set_default_state")
+    m = re.fullmatch(r"self\._state=generate_system_state\(self\.network,self\.space,(self\.[a-z_.]+),override_species_state_dict\)", sds[0]) if len(sds) == 1 else None
+    if not m:
+        raise AnchorLost("rdsystem.py:RDSystem.set_default_state")
+    L.append("/-- `set_default_state`: the units system the default state is expressed in -/")
+    L.append("def defaultStateUnitsSource : String := %s" % lean_str(m.group(1)))
+    L.append("def setDefaultChemostatsBody : List String := %s" % lean_list([lean_str(x) for x in body_text("set_default_chemostats")]))
+    L.append("def setStateBody : List String := %s" % lean_list([lean_str(x) for x in body_text("set_state")]))
+    L.append("def setChemostatBody : List String := %s" % lean_list([lean_str(x) for x in body_text("set_chemostat")]))
+    L.append("def getStateBody : List String := %s" % lean_list([lean_str(x) for x in body_text("get_state")]))
+    L.append("def getChemostatBody : List String := %s" % lean_list([lean_str(x) for x in body_text("get_chemostat")]))
+    L.append("def getStateIndexBody : List String := %s" % lean_list([lean_str(x) for x in body_text("get_state_index")]))
+    # ---- RDSystem.space setter: validation of the space's environment map against the network (absent in older trees)
+    bad = None
+    for n in rds.tree.body:
+        if isinstance(n, ast.ClassDef) and n.name == "RDSystem":
+            for fn in n.body:
+                if isinstance(fn, ast.FunctionDef) and fn.name == "space" and len(fn.args.args) == 2:
+                    for st in fn.body:
+                        if isinstance(st, ast.For) and _norm(rds, st.iter) == "v.get_cell_env_array()" and _norm(rds, st.target) == "e":
+                            for b in st.body:
+                                if isinstance(b, ast.If) and any(isinstance(r, ast.Raise) for r in b.body):
+                                    bad = _ExprTrMin(rds, {"int(e)": "e", "self.network.nenvironments()": "nenv"}).tr(b.test)
+    L.append("/-- `RDSystem.space` setter: a cell environment index for which this holds is rejected (`false` = no validation) -/")
+    L.append("def spaceEnvBad (nenv e : Int) : Bool := %s" % (bad if bad is not None else "false"))
+    L.append("\nend Strengths.Gen")
+    return "\n".join(L) + "\n"
